@@ -1,6 +1,7 @@
 package props
 
 import (
+	"bytes"
 	"encoding/json"
 	"fmt"
 	"runtime"
@@ -27,6 +28,24 @@ type c07Case struct {
 	// Reuse: the same Engine value then executes the same script pair again in context Ctx2
 	Reuse bool `json:"engine_reused,omitempty"`
 	Ctx2  int  `json:"second_ctx,omitempty"`
+	// Warm > 0: the Engine value first executed warm-up program Warm (see c07Warmups), whatever came of it
+	Warm int `json:"engine_warmed_up_with,omitempty"`
+}
+
+// c07Warmups: programs that leave as much state behind in an interpreter as one execution can (P2SH
+// hand-over, early return, errors inside conditionals with items on both stacks, deep stacks).
+var c07Warmups = []struct {
+	name         string
+	unlock, lock []byte
+	flags        uint32
+}{
+	{"P2SH spend", []byte{0x01, 0x51}, append(append([]byte{0xa9, 0x14}, refHash160([]byte{0x51})...), 0x87), uint32(scriptflag.Bip16)},
+	{"P2SH spend with clean stack", []byte{0x01, 0x51}, append(append([]byte{0xa9, 0x14}, refHash160([]byte{0x51})...), 0x87), uint32(scriptflag.Bip16 | scriptflag.VerifyCleanStack)},
+	{"after genesis: OP_RETURN inside an unterminated conditional", []byte{0x51}, []byte{0x63, 0x6a}, uint32(scriptflag.UTXOAfterGenesis)},
+	{"after genesis: early return", []byte{0x51}, []byte{0x51, 0x6a, 0xff}, uint32(scriptflag.UTXOAfterGenesis)},
+	{"failure inside nested conditionals with alt-stack items", []byte{0x51, 0x6b}, []byte{0x51, 0x6b, 0x51, 0x63, 0x00, 0x64, 0x52, 0x6b, 0x00, 0x69}, 0},
+	{"forty items and an unknown opcode", nil, append(bytes.Repeat([]byte{0x51, 0x76, 0x6b}, 20), 0xff), uint32(scriptflag.UTXOAfterGenesis)},
+	{"code separator then failure", []byte{0x51}, []byte{0xab, 0x51, 0xab, 0x00, 0x69}, uint32(scriptflag.EnableSighashForkID)},
 }
 
 var c07CtxNames = []string{"scripts only (no tx)", "1-in/1-out tx", "2-in/0-out tx", "3-in tx, other inputs unsigned", "tx whose previous txid has 31 bytes (built through the JSON API)",
@@ -37,6 +56,10 @@ const c07NCtx = 11
 
 func c07Exec(c c07Case) error {
 	eng := interpreter.NewEngine()
+	if c.Warm > 0 {
+		w := c07Warmups[c.Warm-1]
+		_ = eng.Execute(c07Opts(c07Case{Unlock: w.unlock, Lock: w.lock, Flags: w.flags}, 1)...)
+	}
 	err := eng.Execute(c07Opts(c, c.Ctx)...)
 	if c.Reuse {
 		err = eng.Execute(c07Opts(c, c.Ctx2)...)
@@ -128,6 +151,10 @@ func c07Check(c c07Case) (fs []rep.Finding) {
 	if f := rep.Guard(func() { _ = c07Exec(c) }); f != nil {
 		f.Key = fmt.Sprintf("%s|ctx=%d", f.Key, c.Ctx)
 		f.What += " — context: " + c07CtxNames[c.Ctx]
+		if c.Warm > 0 {
+			f.Key += "|engine-warmed-up"
+			f.What += " — the Engine had executed before: " + c07Warmups[c.Warm-1].name
+		}
 		if c.Reuse {
 			f.Key = fmt.Sprintf("%s>%d|engine-reused", f.Key, c.Ctx2)
 			f.What += ", then on the same Engine: " + c07CtxNames[c.Ctx2]
@@ -259,6 +286,15 @@ func c07ScriptSet() [][2][]byte {
 		add([]byte{}, []byte{})
 		add([]byte{0x51}, []byte{0x6a, 0x4c})
 		add([]byte{0x51, 0x6a, 0xff}, []byte{0x6c})
+		// signature checks over script code made of (almost) nothing but wide push headers
+		for _, pd := range [][]byte{{0x4c, 0x00}, {0x4d, 0x00, 0x00}, {0x4e, 0x00, 0x00, 0x00, 0x00}, {0x4e, 0x00, 0x00, 0x00, 0x00, 0x75, 0x4e, 0x00, 0x00, 0x00, 0x00, 0x75, 0x4e, 0x00, 0x00, 0x00, 0x00},
+			{0x4d, 0x01, 0x00, 0x07}, {0x4e, 0x01, 0x00, 0x00, 0x00, 0x07}} {
+			add(pushAll(sigLike, k.comp), bytesJoin(pd, []byte{0x75, 0xac}))
+			add(pushAll(sigLike, k.comp), bytesJoin(pd, []byte{0x75, 0xad, 0x51}))
+			add(pushAll([]byte{}, sigLike), bytesJoin(pd, []byte{0x75, 0x51}, minimalPush(k.comp), []byte{0x51, 0xae}))
+			add(pushAll(sigLike, k.comp), bytesJoin([]byte{0x00, 0x63}, pd, pd, pd, []byte{0x68, 0xac}))
+			add(bytesJoin(pd, []byte{0x75}, pushAll(sigLike, k.comp), []byte{0xac}), []byte{0x61})
+		}
 	})
 	return c07Scripts
 }
@@ -299,12 +335,28 @@ func c07Sizes4(thorough bool) (a, b, c, d uint64) {
 	return
 }
 
+// E: warm-ups - one Engine value that executed a warm-up program, then each script pair under 4 flag words
+var c07WarmFlags = []uint32{0, uint32(scriptflag.Bip16), uint32(scriptflag.UTXOAfterGenesis), uint32(scriptflag.EnableSighashForkID | scriptflag.VerifyCleanStack | scriptflag.Bip16)}
+
+func c07SizeE() uint64 {
+	return uint64(len(c07ScriptSet())) * uint64(len(c07Warmups)) * uint64(len(c07WarmFlags)) * 2
+}
+
 var c07Idx = []int{-1, 0, 1, 2, 1<<31 - 1}
 
 func c07At(thorough bool, i uint64) c07Case {
-	a, b, cN, _ := c07Sizes4(thorough)
+	a, b, cN, dN := c07Sizes4(thorough)
 	set := c07ScriptSet()
 	switch {
+	case i >= a+b+cN+dN:
+		i -= a + b + cN + dN
+		dbg := int(i % 2)
+		i /= 2
+		f := c07WarmFlags[i%uint64(len(c07WarmFlags))]
+		i /= uint64(len(c07WarmFlags))
+		w := int(i%uint64(len(c07Warmups))) + 1
+		s := set[i/uint64(len(c07Warmups))]
+		return c07Case{Unlock: s[0], Lock: s[1], Flags: f, Ctx: 1, Idx: 0, Dbg: dbg * 2, Warm: w}
 	case i < a:
 		sub := a / 65536
 		s := set[(i%sub)*uint64(len(set))/sub]
@@ -357,14 +409,14 @@ func c07At(thorough bool, i uint64) c07Case {
 
 func init() {
 	p := register(&Prop{ID: "C07", Level: "model_checking",
-		Rule: "exhaustive exploration of Engine.Execute in isolated child processes (panic recovered per case; log.Fatal / out-of-memory / hang attributed through a progress marker and reproduced twice): (A) ALL 65,536 flag words x 64 (quick) / 256 (thorough) representative script pairs with a transaction; (B) ~2,300 script pairs (every opcode with 0/1/2/3 operands and inside an unexecuted branch, signature checks followed by a top-level OP_RETURN and every one-byte tail, unlocking scripts that execute OP_CODESEPARATOR or fill the alt stack and end early against short signature-checking locking scripts, standard templates, multisig with junk signatures/keys/counts incl. 2^31-1 and 2^32, every malformed-signature class x key encodings, truncated pushes) x 16 flag words x 11 transaction contexts (none; 1-in/1-out; 2-in/0-out; other inputs unsigned; 31-byte previous txid built through JSON; nil previous output; previous output without script; nil tx; tx without inputs; inputs that never had a previous txid; inputs with an empty one) x input index {-1,0,1,2,2^31-1} x debugger {none, recording, fan-out, scribbling}; (C) every byte string of length<=2 as locking script x 3 unlocking seeds x 4 flag words x with/without transaction; (D) one Engine value executing each of the script pairs twice, in every ordered pair of the 11 contexts x 3 flag words. Oracle: Execute returns nil or an error, and allocates less than 32 MiB. The lockstep checks C05/C08/C19 additionally run ~10^7 executions under the same panic containment. states = distinct (context, debugger, outcome class) combinations; transitions = executions",
+		Rule: "exhaustive exploration of Engine.Execute in isolated child processes (panic recovered per case; log.Fatal / out-of-memory / hang attributed through a progress marker and reproduced twice): (A) ALL 65,536 flag words x 64 (quick) / 256 (thorough) representative script pairs with a transaction; (B) ~2,300 script pairs (every opcode with 0/1/2/3 operands and inside an unexecuted branch, signature checks followed by a top-level OP_RETURN and every one-byte tail, unlocking scripts that execute OP_CODESEPARATOR or fill the alt stack and end early against short signature-checking locking scripts, standard templates, multisig with junk signatures/keys/counts incl. 2^31-1 and 2^32, every malformed-signature class x key encodings, truncated pushes, signature checks over script code made of wide empty push headers) x 16 flag words x 11 transaction contexts (none; 1-in/1-out; 2-in/0-out; other inputs unsigned; 31-byte previous txid built through JSON; nil previous output; previous output without script; nil tx; tx without inputs; inputs that never had a previous txid; inputs with an empty one) x input index {-1,0,1,2,2^31-1} x debugger {none, recording, fan-out, scribbling}; (C) every byte string of length<=2 as locking script x 3 unlocking seeds x 4 flag words x with/without transaction; (D) one Engine value executing each of the script pairs twice, in every ordered pair of the 11 contexts x 3 flag words; (E) one Engine value that first executed one of 7 warm-up programs (P2SH spends, early return, OP_RETURN inside an unterminated conditional, failures inside nested conditionals with alt-stack items, deep stacks, code separators) and then each script pair x 4 flag words x with/without debugger. Oracle: Execute returns nil or an error, and allocates less than 32 MiB. The lockstep checks C05/C08/C19 additionally run ~10^7 executions under the same panic containment. states = distinct (context, debugger, outcome class) combinations; transitions = executions",
 	})
 	NewSpace(p, "c07", c07Check)
 	worker.Register(&worker.Space{
 		Name: "c07",
 		N: func(th bool) uint64 {
 			a, b, c, d := c07Sizes4(th)
-			return a + b + c + d
+			return a + b + c + d + c07SizeE()
 		},
 		Case:  func(th bool, i uint64) any { return c07At(th, i) },
 		Check: func(th bool, i uint64) []rep.Finding { return c07Check(c07At(th, i)) },
@@ -374,12 +426,15 @@ func init() {
 			if c.Reuse {
 				return fmt.Sprintf("reuse|ctx%d>ctx%d|%s", c.Ctx, c.Ctx2, errCode(err))
 			}
+			if c.Warm > 0 {
+				return fmt.Sprintf("warm%d|%s", c.Warm, errCode(err))
+			}
 			return fmt.Sprintf("ctx%d|dbg%d|idx%d|%s", c.Ctx, c.Dbg, c.Idx, errCode(err))
 		},
 	})
 	p.Run = func(r *rep.Run, thorough bool) {
 		a, b, c, d := c07Sizes4(thorough)
-		r.Note("space_sizes", map[string]uint64{"flagsweep": a, "contexts": b, "bytes": c, "engine_reuse": d})
+		r.Note("space_sizes", map[string]uint64{"flagsweep": a, "contexts": b, "bytes": c, "engine_reuse": d, "engine_warm_ups": c07SizeE()})
 		worker.Run(r, "c07", thorough, 16)
 		r.Note("states", r.DistinctCount())
 		r.Note("transitions", r.Evals())
